@@ -999,6 +999,9 @@ func (g *Global) unitModKeys(u *Unit, fn *ssa.Function, ws *writeSet) {
 			continue
 		}
 		if !g.modExprKeys(e, fn, u, ws) {
+			if os.Getenv("GOVC_DEBUG") != "" {
+				fmt.Fprintf(os.Stderr, "unitModKeys: cannot resolve modifies item %q of %s::%s\n", it, u.Pkg, u.Func)
+			}
 			ws.all = true
 		}
 	}
@@ -1114,6 +1117,22 @@ func (g *Global) staticType(e Expr, fn *ssa.Function, u *Unit) types.Type {
 						return types.NewPointer(ft)
 					}
 					return ft
+				}
+			}
+		}
+	case ECall:
+		if x.Fn == "payload" && len(x.Args) == 2 {
+			if ts, ok := x.Args[1].(EStr); ok {
+				name := strings.TrimPrefix(ts.V, "*")
+				var e2 Expr = EIdent{name}
+				if i := strings.Index(name, "."); i >= 0 {
+					e2 = ESel{EIdent{name[:i]}, name[i+1:]}
+				}
+				if t := g.typeByExpr(e2, fn, u); t != nil {
+					if strings.HasPrefix(ts.V, "*") {
+						return types.NewPointer(t)
+					}
+					return t
 				}
 			}
 		}
